@@ -66,3 +66,22 @@ Proof.
   cbv zeta in *.
   rewrite A, A', B, B', C, C', (best_value5_perm n ws ws' ltac:(lia) H HP). repeat split.
 Qed.
+
+(* ---- the reported hand is a best hand by the rules ------------------------------------------------ *)
+From CKC Require Import Proofs.FreeFacts Proofs.C03.
+Lemma reported_hand_spec chk n ws v h :
+  (n = 6 \/ n = 7)%nat -> HandN n ws -> hrvh chk ws = Ok (v, h) ->
+  Hand5 h /\ incl h ws /\ v = best_value5 ws /\ value5 h = best_value5 ws /\
+  forall s, length s = 5%nat -> NoDup s -> incl s ws -> value5 h <= value5 s.
+Proof.
+  intros Hn H E.
+  destruct (witness_free chk n ws Hn H) as (v' & h' & E' & _ & HL & HN & HI & _ & HR & _ & HV).
+  rewrite E in E'. injection E' as <- <-.
+  assert (H5 : Hand5 h) by (repeat split; assumption).
+  destruct (value_n_spec chk n ws Hn H) as (_ & _ & B & _ & _). cbv zeta in B.
+  rewrite E in B. cbn in B. injection B as Bv.
+  pose proof (proj1 (value_ok chk h H5)) as V5. cbv zeta in V5. rewrite HV in V5. injection V5 as V5.
+  assert (EV : value5 h = best_value5 ws) by (unfold value5; rewrite <- V5; exact Bv).
+  repeat split; try assumption.
+  intros s Hs Hd Hincl. rewrite EV. apply (lower_spec n ws s H Hs Hd Hincl).
+Qed.
